@@ -130,7 +130,8 @@ class MinGenSet():
 
             self.numbers = list(set(self.numbers) - elements_to_remove)
 
-        if remove_complement_values:
+        if remove_complement_values and self.max_multiplicity == 1:
+            # (with multiplicities > 1 the complement total - x of a generated x need not be generated)
             elements_to_remove = set()
             for val in self.numbers:
                 if total - val in self.numbers and total - val > val:
